@@ -214,8 +214,8 @@ theorem segOKb_sound {s : State} {parent : Option Int} {groupId : Option String}
 
 theorem opOKb_sound {s : State} {op : Op} (h : opOKb s op = true) : OpOK s op := by
   cases op with
-  | addSegment a => obtain ⟨a1, a2, a3, a4⟩ := segOKb_sound h; exact ⟨a1, a2, a3, a4⟩
-  | addUnbranched u => obtain ⟨a1, a2, a3, a4⟩ := segOKb_sound h; exact ⟨a1, a2, a3, a4⟩
+  | addSegment a => obtain ⟨a1, a2, a3, a4⟩ := segOKb_sound h; exact ⟨a1, a2, fun g hg => Or.inl (a3 g hg), a4⟩
+  | addUnbranched u => obtain ⟨a1, a2, a3, a4⟩ := segOKb_sound h; exact ⟨a1, a2, fun g hg => Or.inl (a3 g hg), a4⟩
   | addSegmentLex a => cases h
   | _ => trivial
 
